@@ -73,6 +73,7 @@ def run(ctx):
     cov = dimlink.stage(ctx, st, 1200 if thorough else 150, 18 if thorough else 14, [dimlink.alias_predicate])
     ctx.coverage.update(cov)
     ctx.coverage["evaluations"] += sum(cov["dimension_ops"].values())
+    dimlink.frame_links_stage(ctx, 300 if thorough else 40, 14)
     from props import c16
     ctx.coverage.update(c16.frame_stage(ctx, st, 600 if thorough else 90, "a change made through one path is visible through all others"))
     ctx.coverage["rule"] += (" Dimension links: histories on a host array's range and set dimension and a target array of rank 1-2 "
